@@ -216,6 +216,11 @@ func raceV2(c Cfg, n, capIn int) {
 	if err != nil {
 		panic(err)
 	}
+	// the caller reuses its Inputs map after the constructor has returned
+	for k := range inputs {
+		delete(inputs, k)
+	}
+	inputs[424242] = nil
 	raceProducers(c, chans, n, true)
 	out := d.Output()
 	for h := uint(0); h < c.H; h++ {
@@ -241,6 +246,11 @@ func raceS2(c Cfg, n, capIn int) {
 	if err != nil {
 		panic(err)
 	}
+	// the caller reuses its Inputs map after the constructor has returned
+	for k := range inputs {
+		delete(inputs, k)
+	}
+	inputs[424242] = nil
 	raceProducers(c, chans, n, true)
 	errs := d.Err()
 	vrt.Spawn("errreader", func() { vrt.Recv2(errs) })
@@ -259,6 +269,11 @@ func raceV1(c Cfg, n, capIn int) {
 	if err != nil {
 		panic(err)
 	}
+	// the caller reuses its Inputs map after the constructor has returned
+	for k := range inputs {
+		delete(inputs, k)
+	}
+	inputs[424242] = nil
 	raceProducers(c, chans, n, true)
 	for h := uint(0); h < c.H; h++ {
 		vrt.Spawn("handler", func() {
@@ -328,6 +343,11 @@ func raceS1(c Cfg, n, capIn int) {
 	if err != nil {
 		panic(err)
 	}
+	// the caller reuses its Inputs map after the constructor has returned
+	for k := range inputs {
+		delete(inputs, k)
+	}
+	inputs[424242] = nil
 	raceProducers(c, chans, n, true)
 	switch c.Stop {
 	case "stop":
